@@ -121,6 +121,17 @@ def ev(e, env):
     if isinstance(e, ast.Call) and isinstance(e.func, ast.Name) and e.func.id == 'callable' and e.func.id not in env and len(e.args) == 1 and not e.keywords:
         v_ = ev(e.args[0], env)
         return isinstance(v_, Closure) or (isinstance(v_, Obj) and '__name__' in v_.__dict__) or (callable(v_) and not isinstance(v_, Obj))
+    if isinstance(e, ast.Call) and isinstance(e.func, ast.Name) and e.func.id in ('getattr', 'hasattr') and e.func.id not in env and not e.keywords and len(e.args) in (2, 3):
+        o_, nm_ = ev(e.args[0], env), ev(e.args[1], env)
+        has_ = (hasattr(o_, '__dict__') and nm_ in vars(o_)) or (not isinstance(o_, Obj) and not hasattr(o_, '__dict__') and hasattr(o_, nm_)) \
+            or (isinstance(o_, tuple) and nm_ in getattr(type(o_), '_fields', ()))
+        if e.func.id == 'hasattr':
+            return bool(has_)
+        if has_:
+            return vars(o_)[nm_] if hasattr(o_, '__dict__') and nm_ in vars(o_) else getattr(o_, nm_)
+        if len(e.args) == 3:
+            return ev(e.args[2], env)
+        raise Raised('AttributeError: %s' % nm_)
     if isinstance(e, ast.SetComp):
         return set(_comprehension(e, env))
     if isinstance(e, ast.DictComp):
